@@ -715,7 +715,6 @@ func noBreakingGuard(info *types.Info, fd *ast.FuncDecl, recv types.Object, guar
 	return false
 }
 
-
 // countEnv is a small model of a difference list: how many entries of each class.
 type countEnv struct{ b, nb, w int }
 
